@@ -29,6 +29,7 @@ EXPLANATION = (
     " (R11) an API-level validate that validates two parts in sequence (SeriesSchema: values, then index) fences the first call, so that the second part still runs and both are reported in lazy mode. " 
     " (R12) every per-error frame of the polars report casts failure_case to the common string type before pl.concat. " 
     "NOT decided: equality of failure_cases with the set of offending cells."
+    ' R2 follows helpers that are closures of the function or of an enclosing one.'
 )
 LEVEL_RULE = "one obligation per handler / lazy use / validate method / fenced call"
 FLOORS = {"R1": 4, "R2": 20, "R3": 12, "R4": 6, "R5": 3, "R6": 6, "R7": 5, "R8": 1, "R9": 3, "R10": 1, "R11": 1, "R12": 2}
